@@ -6,10 +6,12 @@ import (
 	"errors"
 	"fmt"
 	"math/rand/v2"
+	"regexp"
 	"sort"
 	"strings"
 	"time"
 
+	"github.com/opencontainers/go-digest"
 	ocispec "github.com/opencontainers/image-spec/specs-go/v1"
 	oras "oras.land/oras-go/v2"
 	"oras.land/oras-go/v2/content"
@@ -21,26 +23,29 @@ import (
 
 // Case is one generated copy scenario.
 type Case struct {
-	G        *gen.DAG
-	Root     int
-	SrcKind  string
-	DstKind  string
-	Conc     int    // CopyGraphOptions.Concurrency (0: default 3)
-	API      string // Copy, CopyGraph
-	SrcRef   string
-	DstRef   string // "" = same as source
-	MapRoot  string // "", identity, child, platform
-	Platform *ocispec.Platform
-	Expect   int // expected root after mapping (-1: the call is expected to fail in root selection)
-	Prepop   []int
-	MaxMeta  int64
-	Delay    time.Duration
-	Seed     uint64
-	Mount    string // "", ok, refuse (remote destination only)
-	Depth    int    // ExtendedCopy* only (0: unlimited)
-	PreTag   int    // node (of Prepop) the destination reference points at before the call, -1: none
-	RaceNode int    // node that a simulated concurrent writer pushes to the destination just before the library does, -1: none
-	Profile  *regmodel.Profile
+	G           *gen.DAG
+	Root        int
+	SrcKind     string
+	DstKind     string
+	Conc        int    // CopyGraphOptions.Concurrency (0: default 3)
+	API         string // Copy, CopyGraph
+	SrcRef      string
+	DstRef      string // "" = same as source
+	MapRoot     string // "", identity, child, platform
+	Platform    *ocispec.Platform
+	Expect      int // expected root after mapping (-1: the call is expected to fail in root selection)
+	Prepop      []int
+	MaxMeta     int64
+	Delay       time.Duration
+	Seed        uint64
+	Mount       string // "", ok, refuse (remote destination only)
+	Depth       int    // ExtendedCopy* only (0: unlimited)
+	RefIsDigest bool   // the source reference is the root's digest string
+	FilterAll   bool   // ExtendedCopy*: install FilterArtifactType with a match-all regex (exercises the filter listing path)
+	SubjectOnly bool   // the source exposes subject links only (registry): ancestors follow referrers
+	PreTag      int    // node (of Prepop) the destination reference points at before the call, -1: none
+	RaceNode    int    // node that a simulated concurrent writer pushes to the destination just before the library does, -1: none
+	Profile     *regmodel.Profile
 }
 
 // Env is a set-up case.
@@ -72,6 +77,7 @@ type GenOpts struct {
 	MaxDelay       time.Duration
 	ManifestAsBlob bool // allow the C01 finding shape
 	RaceWriter     bool // allow a simulated concurrent writer on one node
+	TitleClash     bool // allow two different blobs under one title (file-store destination must fail the copy)
 }
 
 // GenCase draws a case.
@@ -97,6 +103,8 @@ func GenCase(rng *rand.Rand, o GenOpts) *Case {
 	go_.Platforms = !o.NoOptions && rng.IntN(3) == 0
 	go_.Titles = (c.DstKind == "file" || c.SrcKind == "file") && rng.IntN(2) == 0
 	go_.ManifestAsBlob = o.ManifestAsBlob && rng.IntN(6) == 0
+	go_.URLsOnLayers = rng.IntN(3) == 0
+	go_.TitleClash = o.TitleClash && go_.Titles && c.DstKind == "file" && rng.IntN(3) == 0
 	if rng.IntN(8) == 0 {
 		go_.BigBlob = 1<<20 + rng.IntN(1<<19)
 	}
@@ -133,6 +141,12 @@ func GenCase(rng *rand.Rand, o GenOpts) *Case {
 	c.SrcRef = "src-tag"
 	if rng.IntN(2) == 0 {
 		c.DstRef = "dst.tag-v2"
+	}
+	if c.API == "Copy" && rng.IntN(6) == 0 && (c.SrcKind != "remote" || g.Nodes[c.Root].Kind.IsManifestKind()) {
+		// the source reference is the root's digest and the destination reference is left blank
+		c.SrcRef = g.Nodes[c.Root].Desc.Digest.String()
+		c.DstRef = ""
+		c.RefIsDigest = true
 	}
 	c.Expect = c.Root
 	if c.API == "Copy" && !o.NoOptions {
@@ -188,7 +202,7 @@ func GenCase(rng *rand.Rand, o GenOpts) *Case {
 		}
 		c.Prepop = g.DownClosure(picks)
 	}
-	if len(c.Prepop) > 0 && c.API == "Copy" && rng.IntN(2) == 0 {
+	if len(c.Prepop) > 0 && c.API == "Copy" && !c.RefIsDigest && rng.IntN(2) == 0 {
 		// the destination reference already exists and points at another node
 		var cand []int
 		for _, p := range c.Prepop {
@@ -272,7 +286,7 @@ func (c *Case) Describe() map[string]any {
 	return map[string]any{
 		"api": c.API, "src": c.SrcKind, "dst": c.DstKind, "root": c.Root, "expected_root": c.Expect, "concurrency": c.Conc,
 		"src_ref": c.SrcRef, "dst_ref": c.DstRef, "map_root": c.MapRoot, "platform": c.Platform, "prepopulated": c.Prepop,
-		"pre_tagged_node": c.PreTag, "racing_writer_node": c.RaceNode, "max_metadata_bytes": c.MaxMeta, "delay_max_us": c.Delay.Microseconds(), "delay_seed": c.Seed, "mount": c.Mount,
+		"ref_is_root_digest": c.RefIsDigest, "pre_tagged_node": c.PreTag, "racing_writer_node": c.RaceNode, "max_metadata_bytes": c.MaxMeta, "delay_max_us": c.Delay.Microseconds(), "delay_seed": c.Seed, "mount": c.Mount,
 		"dag": c.G.Describe(c.Root),
 	}
 }
@@ -357,6 +371,9 @@ func (c *Case) Run(ctx context.Context, e *Env) (ocispec.Descriptor, error) {
 		return g.Nodes[c.Root].Desc, oras.CopyGraph(ctx, e.WS, e.WD, g.Nodes[c.Root].Desc, gopts)
 	case "ExtendedCopyGraph":
 		eopts := oras.ExtendedCopyGraphOptions{CopyGraphOptions: gopts, Depth: c.Depth}
+		if c.FilterAll {
+			eopts.FilterArtifactType(regexp.MustCompile(""))
+		}
 		return g.Nodes[c.Root].Desc, oras.ExtendedCopyGraph(ctx, e.WS, e.WD, g.Nodes[c.Root].Desc, eopts)
 	case "ExtendedCopy":
 		eopts := oras.ExtendedCopyOptions{ExtendedCopyGraphOptions: oras.ExtendedCopyGraphOptions{CopyGraphOptions: gopts, Depth: c.Depth}}
@@ -485,6 +502,9 @@ func (c *Case) resolveDst(ctx context.Context, e *Env) (ocispec.Descriptor, erro
 			return
 		}
 		d, ok := repo.Tags[c.EffectiveDstRef()]
+		if !ok && strings.Contains(c.EffectiveDstRef(), ":") {
+			d, ok = digest.Digest(c.EffectiveDstRef()), true // a digest reference names the manifest itself
+		}
 		if !ok {
 			err = fmt.Errorf("tag %q absent in the registry model", c.EffectiveDstRef())
 			return
@@ -522,12 +542,37 @@ func Ancestors(g *gen.DAG, n int) []int {
 	return out
 }
 
+// ReferrerAncestors is the upward closure of n under subject links only.
+func ReferrerAncestors(g *gen.DAG, n int) []int {
+	seen := map[int]bool{n: true}
+	stack := []int{n}
+	for len(stack) > 0 {
+		cur := stack[len(stack)-1]
+		stack = stack[:len(stack)-1]
+		for _, p := range g.Referrers(cur) {
+			if !seen[p] {
+				seen[p] = true
+				stack = append(stack, p)
+			}
+		}
+	}
+	out := make([]int, 0, len(seen))
+	for k := range seen {
+		out = append(out, k)
+	}
+	sort.Ints(out)
+	return out
+}
+
 // ExpectedSet is the set of nodes a successful fault-free call must leave in
 // the destination: reach(expected root) for Copy/CopyGraph, the union of the
 // graphs of every ancestor for unlimited-depth ExtendedCopy*.
 func (c *Case) ExpectedSet() []int {
 	switch c.API {
 	case "ExtendedCopyGraph", "ExtendedCopy":
+		if c.SubjectOnly {
+			return c.G.Reach(ReferrerAncestors(c.G, c.Root)...)
+		}
 		return c.G.Reach(Ancestors(c.G, c.Root)...)
 	}
 	if c.Expect < 0 {
